@@ -1,5 +1,9 @@
 ---- MODULE LimbShift ----
-(* Layer 2: the limb loops of overflowing_shl / overflowing_shr (bits.rs) with the limb width W as a constant.
+(* Layer 2: the limb loops of overflowing_shl / overflowing_shr (bits.rs) with the limb width W as a constant, and the
+   operations composed from them: reverse_bits (limb reversal + per-limb bit reversal gives a NON-canonical value that
+   the right shift must bring back into range), rotate_left / rotate_right (shl | shr with the amount reduced modulo
+   BITS; amount 0 relies on shr-by-BITS = 0), arithmetic_shr (shr | MAX << (BITS - s), saturating) -- invariant
+   Composed: the values and that every result is canonical (top limb within the mask).
    Every (BITS, value, amount) of the down-scaled instance is explored; the final state must satisfy the
    Layer-1 contract (value * 2^s mod 2^BITS, floor(value / 2^s), exact lost-bit flags).  The flag is modelled in
    both forms: FlagOld = the last carry only (the code before the repair of DESIGN.md 9 #2) and FlagNew = the
@@ -37,6 +41,24 @@ Shr(x, s, bits) ==
                   IN Loop(i + 1, [r EXCEPT ![L - i - limbs] = (xi \div 2^sb) + carry], (xi * 2^(W - sb)) % B)
            res == Loop(0, [i \in 1..L |-> 0], 0)
        IN [v |-> res[1], old |-> res[2] # 0, new |-> Val(x, L) # 0 /\ s > Tz(x, bits)]
+\* ---- operations composed from the two loops (bits.rs): reverse_bits, rotate_left / rotate_right, arithmetic_shr
+RECURSIVE BitRev(_, _)
+BitRev(w, k) == IF k = 0 THEN 0 ELSE (w % 2) * 2^(k - 1) + BitRev(w \div 2, k - 1)       \* reverse the low k bits of w
+OrLimbs(p, q) == [i \in 1..Len(p) |-> LET RECURSIVE O(_, _, _) O(a, b, k) == IF k = 0 THEN 0 ELSE
+                                             (IF a % 2 = 1 \/ b % 2 = 1 THEN 1 ELSE 0) + 2 * O(a \div 2, b \div 2, k - 1)
+                                       IN O(p[i], q[i], W)]
+\* limbs reversed, every limb bit-reversed -- a NON-canonical intermediate when BITS % W # 0 -- then shifted down
+RevBits(y, bits) ==
+  LET L == Len(y)
+      t == [i \in 1..L |-> BitRev(y[L + 1 - i], W)]
+  IN IF bits % W # 0 THEN Shr(t, W - (bits % W), bits).v ELSE t
+RotL(y, k, bits) == LET rhs == k % bits IN OrLimbs(Shl(y, rhs, bits).v, Shr(y, bits - rhs, bits).v)
+RotR(y, k, bits) == LET rhs == k % bits IN RotL(y, bits - rhs, bits)
+MaxLimbs(bits) == [i \in 1..NLimbs(bits) |-> IF i = NLimbs(bits) THEN Mask(bits) ELSE B - 1]
+AShr(y, k, bits) ==
+  LET sign == (Val(y, Len(y)) \div 2^(bits - 1)) % 2 = 1
+      r0 == Shr(y, k, bits).v
+  IN IF sign THEN OrLimbs(r0, Shl(MaxLimbs(bits), IF bits >= k THEN bits - k ELSE 0, bits).v) ELSE r0
 VARIABLES bits, x, s, done, l, r
 Init == /\ bits \in 1..(W * MAXLIMBS)
         /\ x \in [1..NLimbs(bits) -> 0..(B - 1)] /\ x[NLimbs(bits)] <= Mask(bits)
@@ -45,11 +67,22 @@ Init == /\ bits \in 1..(W * MAXLIMBS)
 Next == ~done /\ done' = TRUE /\ l' = Shl(x, s, bits) /\ r' = Shr(x, s, bits) /\ UNCHANGED <<bits, x, s>>
 Spec == Init /\ [][Next]_<<bits, x, s, done, l, r>>
 V == Val(x, Len(x))
+RECURSIVE OrNat(_, _)
+OrNat(a, b) == IF a = 0 THEN b ELSE IF b = 0 THEN a ELSE (IF a % 2 = 1 \/ b % 2 = 1 THEN 1 ELSE 0) + 2 * OrNat(a \div 2, b \div 2)
 ValuesOK == done => /\ Val(l.v, Len(x)) = (V * 2^s) % 2^bits
                     /\ Val(r.v, Len(x)) = V \div 2^s
 Contract == done => /\ ValuesOK
                     /\ l.new = (V * 2^s >= 2^bits)
                     /\ r.new = (V % 2^s # 0)
+Canon(y) == y[Len(y)] <= Mask(bits)
+Composed ==
+  LET L == Len(x)  M == 2^bits IN
+  /\ Val(RevBits(x, bits), L) = BitRev(V, bits) /\ Canon(RevBits(x, bits))
+  /\ LET k == s % bits IN Val(RotL(x, s, bits), L) = ((V * 2^k) % M) + (V \div 2^(bits - k)) /\ Canon(RotL(x, s, bits))
+  /\ LET k == s % bits IN Val(RotR(x, s, bits), L) = (V \div 2^k) + ((V % 2^k) * 2^(bits - k)) /\ Canon(RotR(x, s, bits))
+  /\ LET sign == (V \div 2^(bits - 1)) % 2 = 1
+         fill == IF s >= bits THEN M - 1 ELSE M - 2^(bits - s)
+     IN Val(AShr(x, s, bits), L) = (IF sign THEN OrNat(V \div 2^s, fill) ELSE V \div 2^s) /\ Canon(AShr(x, s, bits))
 \* the pre-repair flag: violated (e.g. BITS = 3, x = <<0, 1>>, s = 2 at W = 2)
 ContractOld == done => l.old = (V * 2^s >= 2^bits) /\ r.old = (V % 2^s # 0)
 ====
